@@ -124,3 +124,12 @@ Fixpoint aslen_u8_pre (pr : profile) (fuel : nat) (b : list N) (acc : N) : res N
       | _ => Ok acc
       end
   end.
+
+(* C14-1: Condition::AsPath looked only at single_sets; the compiled general
+   patterns (AsPathSet::sets) were never evaluated *)
+Definition cond_aspath_noregex_pre (o : mopt) (s : apset) (segs : list (list N)) : bool :=
+  match o with
+  | MAny => existsb (fun m => single_match m segs) (ap_single s)
+  | MAll => forallb (fun m => single_match m segs) (ap_single s)
+  | MInvert => negb (existsb (fun m => single_match m segs) (ap_single s))
+  end.
